@@ -47,6 +47,7 @@ M = [
  ("C14_functions_before_imports", "C14", "internal/pkg/compiler/step_compile_meta.go", "\terrs = append(errs, s.handleImports(i.Meta.Imports))\n\ts.handleFunctions(i.Meta.Functions)\n", "\ts.handleFunctions(i.Meta.Functions)\n\terrs = append(errs, s.handleImports(i.Meta.Imports))\n", "aliases_registered_before_functions"),
  ("C02_value_pointer_dropped", "C02", "internal/pkg/syntax/helpers.go", "return m[\"ptr\"] + strings.Join(append(parts, m[\"value\"]), \".\")", "return strings.Join(append(parts, m[\"value\"]), \".\")", "CompileServiceValue"),
  ("C16_flag_variables_swapped", "C16", "internal/cmd/cmd_build.go", 'cmd.Flags().BoolVarP(&ignoreMissingParams, "ignore-missing-params", "", false, "ignore missing parameters")\n\tcmd.Flags().BoolVarP(&ignoreMissingServices, "ignore-missing-services", "", false, "ignore missing services")', 'cmd.Flags().BoolVarP(&ignoreMissingServices, "ignore-missing-params", "", false, "ignore missing parameters")\n\tcmd.Flags().BoolVarP(&ignoreMissingParams, "ignore-missing-services", "", false, "ignore missing services")', "each_flag_sets_its_own_variable"),
+ ("C11_validate_params_stops_at_first_error", "C11", "internal/pkg/input/validators_params.go", "\t\t\terrs = append(errs, newErrUnsupportedType(fmt.Sprintf(\"%+q\", n), v))\n", "\t\t\terrs = append(errs, newErrUnsupportedType(fmt.Sprintf(\"%+q\", n), v))\n\t\t\tbreak\n", "no-early-exit"),
  ("C08_output_path_made_absolute", "C08", "internal/cmd/runner/step_code_generator.go", None, None, ""),
 ]
 out = "/verif/selftest/mutants"
